@@ -152,7 +152,9 @@ Definition create_depth_list (hs : list hread) : list hdepth :=
 Definition single_annexed (rc : list hdepth) : bool :=
   match rc with [d] => hd_ann d | _ => false end.
 
-Definition required (annexed_cfg : bool) (rc : list hdepth) (w : option hwrite) : bool * bool :=
+(* [fixed] = the repair proposed in props/C22/fix.patch is present in the tree under test (the check probes
+   the implementation); [required] is the code as it is today *)
+Definition required_gen (fixed : bool) (annexed_cfg : bool) (rc : list hdepth) (w : option hwrite) : bool * bool :=
   if annexed_cfg && single_annexed rc then (false, true)
   else match w with
   | None => (true, false)
@@ -171,11 +173,14 @@ Definition required (annexed_cfg : bool) (rc : list hdepth) (w : option hwrite) 
         if (1 <? N.of_nat (length rc)) && existsb (fun d => clean <? hd_lit d) rc then (true, true)
         else match rc with
              | [d] => if (match hd_var d with Some _ => true | None => false end) || hd_max d
+                         || (fixed && hd_maxm1 d)
                       then (true, false)
                       else if clean <? hd_lit d then (true, true) else (false, true)
              | _ => (true, false)
              end
   end.
+
+Definition required := required_gen false.
 
 (* LFRicLoop._halo_read_access for a field argument; None = GenerationError *)
 Record larg := { l_acc : access; l_stencil : bool; l_ub : bound; l_disc : bool; l_cellcol : bool; l_auw : bool }.
@@ -355,13 +360,16 @@ Definition init_ok (annexed_cfg : bool) (M : N) (s : fstate) : Prop :=
   fr s <= fa s /\ fa s <= M /\ (1 <= fa s -> fann s = true) /\ (annexed_cfg = true -> fann s = true).
 
 (* --- the checkable placement condition: abstract interpretation with symbolic lower bounds *)
-Definition covers (have need : sdepth) : bool :=
+(* [mlo]: a lower bound of the halo depth M known statically (the deepest literal loop depth of the invoke:
+   a configuration with a smaller M is not valid) *)
+Definition covers (mlo : N) (have need : sdepth) : bool :=
   match need with
   | SLit 0 => true
   | _ =>
     match have, need with
     | SMax, _ => true
     | SMaxM1, SMaxM1 => true
+    | SMaxM1, SLit m => m + 1 <=? mlo
     | SLit n, SLit m => m <=? n
     | SVar b v n, SVar b' v' m => Bool.eqb b b' && (v =? v') && (m <=? n)
     | SVar _ _ n, SLit m => m <=? n
@@ -369,44 +377,44 @@ Definition covers (have need : sdepth) : bool :=
     end
   end.
 
-Definition covered (lb : list sdepth) (need : sdepth) : bool :=
-  match need with SLit 0 => true | _ => existsb (fun h => covers h need) lb end.
+Definition covered (mlo : N) (lb : list sdepth) (need : sdepth) : bool :=
+  match need with SLit 0 => true | _ => existsb (fun h => covers mlo h need) lb end.
 
 (* depth known to be >= 1 in every valid configuration *)
-Definition ge1 (d : sdepth) : bool :=
-  match d with SLit n => 1 <=? n | SVar _ _ _ => true | SMax => true | SMaxM1 => false end.
+Definition ge1 (mlo : N) (d : sdepth) : bool :=
+  match d with SLit n => 1 <=? n | SVar _ _ _ => true | SMax => true | SMaxM1 => 2 <=? mlo end.
 
 Record astate := { lb : list sdepth; annk : bool; rok : bool; amk : bool }.
 
-Definition astep (a : astate) (st : stmt) : option astate :=
+Definition astep (mlo : N) (a : astate) (st : stmt) : option astate :=
   match st with
   | SDirty => Some {| lb := lb a; annk := annk a; rok := true; amk := true |}
   | SClean d =>
       Some {| lb := lb a; annk := annk a;
-              rok := (rok a || existsb (sdepth_eqb SMax) (lb a)) && covered (lb a) d; amk := true |}
+              rok := (rok a || existsb (sdepth_eqb SMax) (lb a)) && covered mlo (lb a) d; amk := true |}
   | SHx ds checked =>
-      if rok a then Some {| lb := ds ++ lb a; annk := annk a || existsb ge1 ds; rok := true; amk := false |}
+      if rok a then Some {| lb := ds ++ lb a; annk := annk a || existsb (ge1 mlo) ds; rok := true; amk := false |}
       else None
   | SLoop reads write =>
       if amk a && negb (rok a) then None
-      else if forallb (fun rd => covered (lb a) (fst rd) &&
-                                 (negb (snd rd) || annk a || existsb ge1 (lb a))) reads
+      else if forallb (fun rd => covered mlo (lb a) (fst rd) &&
+                                 (negb (snd rd) || annk a || existsb (ge1 mlo) (lb a))) reads
       then match write with
            | None => Some {| lb := lb a; annk := annk a; rok := rok a; amk := false |}
-           | Some (d, ann) => Some {| lb := [d]; annk := ann || ge1 d; rok := false; amk := false |}
+           | Some (d, ann) => Some {| lb := [d]; annk := ann || ge1 mlo d; rok := false; amk := false |}
            end
       else None
   end.
 
-Fixpoint arun (p : list stmt) (a : astate) : option astate :=
+Fixpoint arun (mlo : N) (p : list stmt) (a : astate) : option astate :=
   match p with
   | [] => Some a
-  | st :: r => match astep a st with Some a' => arun r a' | None => None end
+  | st :: r => match astep mlo a st with Some a' => arun mlo r a' | None => None end
   end.
 
 (* [cont]: the field is continuous (then COMPUTE_ANNEXED_DOFS requires clean annexed dofs on exit) *)
-Definition well_placed (annexed_cfg cont : bool) (p : list stmt) : bool :=
-  match arun p {| lb := []; annk := annexed_cfg; rok := true; amk := false |} with
-  | Some a => rok a && (negb (annexed_cfg && cont) || annk a || existsb ge1 (lb a))
+Definition well_placed (mlo : N) (annexed_cfg cont : bool) (p : list stmt) : bool :=
+  match arun mlo p {| lb := []; annk := annexed_cfg; rok := true; amk := false |} with
+  | Some a => rok a && (negb (annexed_cfg && cont) || annk a || existsb (ge1 mlo) (lb a))
   | None => false
   end.
